@@ -219,7 +219,7 @@ def _dec_str(q):
     if fp == 0:
         return sign + str(ip)
     digits = []
-    while fp and len(digits) < 60:
+    while fp and len(digits) < 1100:
         fp *= 10
         d = fp.numerator // fp.denominator
         digits.append(str(d))
@@ -254,7 +254,7 @@ def double_str(v, single=False):
         return '-0' if math.copysign(1.0, v) < 0 else '0'
     a = abs(v)
     r = repr(v) if not single else _shortest32(v)
-    if 1e-6 <= a < 1e21:
+    if 1e-6 <= a < 1e6:
         # decimal representation without exponent
         q = Fraction(r) if 'e' not in r and 'E' not in r else Fraction(r)
         return _dec_str(q)
@@ -351,7 +351,7 @@ def canonical(T, v, ver='1.1'):
 PRIMS = ['untypedAtomic', 'string', 'float', 'double', 'decimal', 'integer', 'duration', 'yearMonthDuration', 'dayTimeDuration', 'dateTime', 'time', 'date',
          'gYearMonth', 'gYear', 'gMonthDay', 'gDay', 'gMonth', 'boolean', 'base64Binary', 'hexBinary', 'anyURI', 'QName']
 _ROWS = """
-untypedAtomic     Y Y M M M M M M M M M M M M M M M M M M M N
+untypedAtomic     Y Y M M M M M M M M M M M M M M M M M M M M
 string            Y Y M M M M M M M M M M M M M M M M M M M M
 float             Y Y Y Y M M N N N N N N N N N N N Y N N N N
 double            Y Y Y Y M M N N N N N N N N N N N Y N N N N
@@ -402,14 +402,15 @@ def selftest():
     assert parse('NCName', 'a:b') is None and parse('Name', 'a:b') and parse('NMTOKEN', '1a') and parse('Name', '1a') is None and parse('language', 'en-US') and parse('language', 'toolonglang') is None
     assert parse('token', '  a  b ') == ('string', 'a b') and parse('normalizedString', 'a\tb') == ('string', 'a b') and parse('NCName', ' a ') == ('string', 'a') and parse('NCName', 'a b') is None
     assert canonical('decimal', parse('decimal', '+01.50')) == '1.5' and canonical('decimal', parse('decimal', '-0.0')) == '0' and canonical('integer', parse('integer', '-007')) == '-7'
-    assert double_str(1e-7) == '1.0E-7' and double_str(1e21) == '1.0E21' and double_str(123456789012345680000.0) == '123456789012345680000' and double_str(0.000001) == '0.000001'
+    assert double_str(1e-7) == '1.0E-7' and double_str(1e21) == '1.0E21' and double_str(123456789012345680000.0) == '1.2345678901234568E20' and double_str(0.000001) == '0.000001'
+    assert double_str(999999.5) == '999999.5' and double_str(1000000.0) == '1.0E6' and double_str(1e-5) == '0.00001'
     assert double_str(1.5e300) == '1.5E300' and double_str(-0.0) == '-0' and double_str(100.0) == '100' and double_str(1.0e99) == '1.0E99' and double_str(0.1) == '0.1'
-    assert canonical('float', parse('float', '0.1')) == '0.1' and canonical('float', parse('float', '16777217')) == '16777216' and canonical('float', parse('float', '1e-7')) == '1.0E-7'
+    assert canonical('float', parse('float', '0.1')) == '0.1' and canonical('float', parse('float', '16777217')) == '1.6777216E7' and canonical('float', parse('float', '1e-7')) == '1.0E-7'
     assert canonical('duration', parse('duration', 'P14M')) == 'P1Y2M' and canonical('dayTimeDuration', parse('dayTimeDuration', 'PT36H')) == 'P1DT12H' and canonical('duration', parse('duration', 'PT0S')) == 'PT0S'
     assert canonical('yearMonthDuration', parse('yearMonthDuration', 'P0Y')) == 'P0M' and canonical('duration', parse('duration', '-PT90.50S')) == '-PT1M30.5S'
     assert canonical('dateTime', parse('dateTime', '2000-02-29T24:00:00+00:00')) == '2000-03-01T00:00:00Z' and canonical('time', parse('time', '24:00:00-05:00')) == '00:00:00-05:00'
     assert canonical('dateTime', parse('dateTime', '2000-01-01T00:00:00.500')) == '2000-01-01T00:00:00.5' and canonical('hexBinary', parse('hexBinary', '0aff')) == '0AFF'
     assert canonical('base64Binary', parse('base64Binary', 'A A = =')) == 'AA==' and canonical('gYear', parse('gYear', '2000+00:00')) == '2000Z'
     assert CAST['date']['dateTime'] == 'Y' and CAST['time']['dateTime'] == 'N' and CAST['boolean']['integer'] == 'Y' and CAST['integer']['boolean'] == 'Y' and CAST['double']['integer'] == 'M'
-    assert CAST['hexBinary']['base64Binary'] == 'Y' and CAST['anyURI']['QName'] == 'N' and CAST['untypedAtomic']['QName'] == 'N' and CAST['string']['QName'] == 'M' and len(CAST) == 22
+    assert CAST['hexBinary']['base64Binary'] == 'Y' and CAST['anyURI']['QName'] == 'N' and CAST['untypedAtomic']['QName'] == 'M' and CAST['string']['QName'] == 'M' and len(CAST) == 22
     return 'atomic: lexical spaces, canonical forms and the 22x22 casting table (90 examples)'
